@@ -176,7 +176,32 @@ NOT_BUILT = {}
 NOT_APPLICABLE = {}
 
 
+# obligations added after the seeded rounds (DESIGN.md §9.3 / §9.7); appended to the level text
+ADDENDA = {
+    "C01": "Also: reversed relational spellings =< =>, parenthesised groups that start with a prefix operator, literal magnitudes 1E-7..1E38.",
+    "C02": "Also: numeric conditions in IF / ELSE IF heads (a BASIC09 type error counts), NEXT lists inside further loops closed by bare NEXT, nested IFs with OR / AND conditions, statements after ON..GOTO / GOSUB / GOTO on the same line, and loop bounds taken from the input (trip counts 1..3, or 1..5 with STEP 2, each a z3-feasible path; zero-trip loops excluded by a guard). Step bound 140.",
+    "C03": "Also: the INSTR / STRING$ / read-filter contracts assumed by the machines are discharged inside this check by interpreting the library text (C20's obligations, `contract:` signatures); with -s 80 every string the program touches, temporaries included, must be declared STRING[80].",
+    "C06": "Also: the 32700 dispatcher for handler targets {0, 30, 40} in both orders; the > 32699 rule through the whole pipeline for programs with and without jumps under all option sets.",
+    "C07": "Also: eleven more expression contexts (FOR limit / STEP, PRINT@, HSET, LOCATE, second statement, HCIRCLE colour, subscript, TAB, ON GOSUB) and NEXT-list programs.",
+    "C08": "Also: whitespace-only lines before, between and after program lines.",
+    "C09": "Also: when the visitors cannot run on a symbolic string the identifier function is tabulated over all names of length <= 3 over {A,B,1,9} and the same queries range over the table; one name used in all four kinds in every order (DIMmed or not) gives four identifiers and every array is declared; generated identifiers are never initialised as user variables.",
+    "C10": "Also: names repeated inside one DIM statement.",
+    "C11": "Also: filtering never makes a label appear; no identifier is declared twice under -s; convert_file on in-memory files equals convert() with LF->CR for content with FF/VT/FS/GS/RS/NEL/U+2028/U+2029; output after other conversions in the same process equals the output of a fresh process.",
+    "C12": "Also: history family with HBUFF programs, DIMmed names reused by later programs under -s 40, bundles with and without an explicit procedure name.",
+    "C13": "Also: procedure-name variants (blanks, dots, +, $, digits, dashes, runtime names): the header is the name or `program` and the bundle is complete; string literals / DATA items containing `(*`, `REM`, `'`, `*)` beside a RUN.",
+    "C15": "Also: token substitution over every literal-only ordered choice of the real grammar; NEXT lists in wrong / repeated order; config files of every YAML shape through convert_file(-c); second-order edits in the thorough tier; the watchdog counts CPU time and a hang is replayed before it is reported.",
+    "C16": "Also: MAX height taken from the length field with `a well-formed header is not refused` (replayed); PPM header = size dictated by the picture type; CM3 types 0x00/0x01/0x80/0x81; VEF final dimensions after the aspect-ratio resize.",
+    "C17": "Also: two-page CM3 pictures whose second page refers to the last line of the first; `missing-samples` when complete records of the input are not decoded.",
+    "C18": "Also: CM3 / MGE / VEF cases (header and prefix samples), MAX length-field heights, file-versus-pipe equivalence with a stream model without seek / tell.",
+    "C19": "Also: MGE first header byte on every path that writes samples (z3 on the path condition, replayed); termination - a while loop beyond the unwinding bound is replayed on the real decoder in a child process under a time limit.",
+    "C20": "Also: the empty pattern (start inside the subject); the transpiler's half of the DATA filter - numeric DATA items (fixed magnitudes + spellings drawn by z3 from the real num_literal regex) keep their value when rewritten as strings. Thorough: strings <= 6, counts <= 12.",
+}
+
+
 def build():
+    for pid, add in ADDENDA.items():
+        if add not in CHECKS[pid]["text"]:
+            CHECKS[pid]["text"] = CHECKS[pid]["text"].rstrip() + " " + add
     checks = []
     for pid in sorted(CHECKS):
         c = CHECKS[pid]
